@@ -260,6 +260,8 @@ class Runner:
             # outside the compared programs: the coordinator would spin at end_time (see report)
             self.end_time_avoided += 1
             opts = Opts(tick_ns=10**9, workers=opts.workers, implicit_window=opts.implicit_window, form=opts.form)
+        if prog.real_dist and not all(W.latency_roundtrip_ok(v * opts.tick_ns) for v in prog.override.values()):
+            opts = Opts(tick_ns=10**9, workers=opts.workers, implicit_window=opts.implicit_window, form=opts.form)
         par = W.run_parallel(prog, opts)
         ref = W.run_sequential(prog, opts) if prog.links else W.run_separate(prog, opts)
         tid = len(self.traces) + 1
